@@ -60,6 +60,45 @@ theorem nested_order_wrong :
     ((PTree.node ⟨2, 0, 0, 2, 0, 0⟩ [.node ⟨1, 0, 0, 1, 1, 0⟩ [.glyph "g"]]).glyphs Aff.id).map (fun l => l.2.app ⟨0, 0⟩)
       ≠ [(⟨2, 0, 0, 2, 0, 0⟩ : Aff).app ((⟨1, 0, 0, 1, 1, 0⟩ : Aff).app ⟨0, 0⟩)] := by decide +kernel
 
+mutual
+theorem glyphs_eq_colr : ∀ (t : PTree) (acc : Aff), t.singleTransform (decide (acc ≠ Aff.id)) = true →
+    t.glyphs acc = t.colrGlyphs acc
+  | .glyph _, _, _ => rfl
+  | .node t kids, acc, h => by
+    simp only [PTree.singleTransform] at h
+    simp only [PTree.glyphs, PTree.colrGlyphs]
+    split at h
+    next ht =>
+      subst ht
+      have e1 : Aff.composeLtr [acc, Aff.id] = acc := by rw [Aff.composeLtr2, Aff.id_mul]
+      have e2 : Aff.composeLtr [Aff.id, acc] = acc := by rw [Aff.composeLtr2, Aff.mul_id]
+      rw [e1, e2]
+      exact glyphsList_eq_colr kids acc h
+    next ht =>
+      simp only [Bool.and_eq_true, Bool.not_eq_true', decide_eq_false_iff_not, ne_eq, not_not] at h
+      obtain ⟨hacc, hk⟩ := h
+      subst hacc
+      have e1 : Aff.composeLtr [Aff.id, t] = t := by rw [Aff.composeLtr2, Aff.mul_id]
+      have e2 : Aff.composeLtr [t, Aff.id] = t := by rw [Aff.composeLtr2, Aff.id_mul]
+      rw [e1, e2]
+      exact glyphsList_eq_colr kids t (by simpa [ht] using hk)
+theorem glyphsList_eq_colr : ∀ (l : List PTree) (acc : Aff), PTree.singleTransformList (decide (acc ≠ Aff.id)) l = true →
+    PTree.glyphsList l acc = PTree.colrGlyphsList l acc
+  | [], _, _ => rfl
+  | k :: ks, acc, h => by
+    simp only [PTree.singleTransformList, Bool.and_eq_true] at h
+    simp only [PTree.glyphsList, PTree.colrGlyphsList]
+    rw [glyphs_eq_colr k acc h.1, glyphsList_eq_colr ks acc h.2]
+end
+
+/-- **C03.2 (placement, all trees nanoemoji builds)**: when every root-to-PaintGlyph path carries at most one
+non-identity transform paint — which is what `_migrate_paths_to_ufo_glyphs` produces, and is checked on
+every real build — the transform the walk hands to `_colr0_layers` / `_bounds` is the one COLR prescribes.
+(`nested_order_wrong` shows the hypothesis is needed.) -/
+theorem walk_matches_colr (roots : List PTree) (h : PTree.singleTransformList false roots = true) :
+    colr0Layers roots = PTree.colrGlyphsList roots Aff.id :=
+  glyphsList_eq_colr roots Aff.id (by simpa using h)
+
 /-- **C03.3** inlining: if every component that carries a non-identity transform refers to a glyph used
 at least twice font-wide (the invariant reuse establishes: the donor is also used by its creator), then the
 single-component rule only ever fires for an identity component. -/
